@@ -23,7 +23,7 @@ MAXB = 16 * 1024 * 1024
 I64MIN, I64MAX = -(1 << 63), (1 << 63) - 1
 U64MAX = (1 << 64) - 1
 
-SHAPES = ["literal", "concat", "slice", "repeat", "zero", "concat3", "prefix", "suffix", "nested", "nested_tail", "nested_concat"]
+SHAPES = ["literal", "concat", "slice", "repeat", "zero", "concat3", "prefix", "suffix", "nested", "nested_tail", "nested_concat", "head_tiled"]
 
 
 def build_replay():
@@ -449,7 +449,9 @@ BINS = [b"", b"\x00", b"\xff", b"\x01\x02", b"\xff\x00", b"\x00\x00\x00\x00", by
         b"\xf0" + bytes(7) + b"\x05", b"\x80" + bytes(7), b"\xff" * 8, bytes(range(1, 17)), b"\xab\xab\xab\xab", b"\x01\x02\x01\x02\x01\x02", b"\x7f\xff\xff\xff\xff\xff\xff\xff" * 2,
         # packed lanes at the extremes: i64::MIN x2 / x3, i64::MAX x2, i32::MIN x2, mixed
         (bytes(7) + b"\x80") * 2, (bytes(7) + b"\x80") * 3, (b"\xff" * 7 + b"\x7f") * 2, (bytes(3) + b"\x80") * 2, (b"\xff" * 3 + b"\x7f") * 2,
-        bytes(7) + b"\x80" + b"\xff" * 7 + b"\x7f"]
+        bytes(7) + b"\x80" + b"\xff" * 7 + b"\x7f",
+        # one odd byte followed by a periodic tail (a tile at a non-zero offset when built as head_tiled)
+        b"\x01" + b"\xaa\xbb" * 3, b"\x07" + b"\x00" * 7 + (b"\x09" + b"\x00" * 7) * 2 + b"\x00" * 0]
 
 # name -> (model, [parameter kinds]); kinds: 'b' binary, 'i' any int, 's' small int, 'w' width
 BUILTINS = {
